@@ -116,6 +116,31 @@ func init() {
 			if r.Bad != "" {
 				return core.Disagree("harness problem: " + r.Bad)
 			}
+			// the property's clause, judged on the input alone (no model): the real code answered ok although an entry that it
+			// had to read is not there / cannot be read.  (An absent OPTIONAL env file is the one excuse; a syntax error is not
+			// this clause and stays a correspondence matter.)
+			if r.Err == "" {
+				var a filesArgs
+				json.Unmarshal(args, &a)
+				if !a.SkipEnv {
+					for i, e := range a.EnvFiles {
+						switch st := a.Disk[e.Path]; {
+						case (st == "absent" || st == "parentIsFile") && e.Required:
+							return core.Fail("missing-file-accepted:env_file", fmt.Sprintf("required env file %s (entry %d of %v) is %s on disk, the service resolved without error", e.Path, i, a.EnvFiles, st))
+						case st == "directory":
+							return core.Fail("unreadable-file-accepted:env_file", fmt.Sprintf("env file %s (entry %d of %v) is a directory, the service resolved without error", e.Path, i, a.EnvFiles))
+						}
+					}
+				}
+				for i, l := range a.LabelFiles {
+					switch st := a.Disk[l]; st {
+					case "absent", "parentIsFile":
+						return core.Fail("missing-file-accepted:label_file", fmt.Sprintf("label file %s (entry %d of %v) is %s on disk, the service resolved without error", l, i, a.LabelFiles, st))
+					case "directory":
+						return core.Fail("unreadable-file-accepted:label_file", fmt.Sprintf("label file %s (entry %d of %v) is a directory, the service resolved without error", l, i, a.LabelFiles))
+					}
+				}
+			}
 			if (r.Err == "") != (d.Err == "") || r.Err != d.Err {
 				return core.Disagree(fmt.Sprintf("Files.resolveService ≠ real: real %q (%s), model %q at %s", r.Err, r.Text, d.Err, d.Path))
 			}
